@@ -35,6 +35,12 @@ type B struct {
 	Y  int64
 }
 
+// lookupError implements graphql.SanitizedError itself: the log text and the client text differ
+type lookupError struct{}
+
+func (lookupError) Error() string          { return "lookup failed on mysql://root:" + secret + "@db" }
+func (lookupError) SanitizedError() string { return "lookup failed" }
+
 // Person objects are long-lived: the resolver hands out the same pointers in every run, so an Expensive field's
 // reactive.Cache key (source pointer + selection) is stable across re-runs.
 type Person struct {
@@ -321,6 +327,8 @@ func (w *world) buildSchema() *graphql.Schema {
 			return "", graphql.WrapAsSafeError(errors.New(secret), "wrapped visible message")
 		case "panic":
 			panic("resolver exploded: " + secret)
+		case "custom": // an application error type with its own client-safe text
+			return "", lookupError{}
 		case "wrapcancel": // something private to the resolver was cancelled; the subscription's own context is alive
 			return "", fmt.Errorf("rpc to %s failed: %w", secret, context.Canceled)
 		case "safecancel":
